@@ -536,3 +536,45 @@ func (f *FCFG) exitAvoidingAll(from ast.Node, avoid []ast.Node) bool {
 	}
 	return false
 }
+
+// entryReachesAvoiding: some path leads from the function entry to node `to`
+// without executing any of the avoid nodes.
+func (f *FCFG) entryReachesAvoiding(to ast.Node, avoid []ast.Node) bool {
+	lt, ok := f.Locate(to)
+	if !ok || len(f.G.Blocks) == 0 {
+		return true
+	}
+	block := map[Loc]bool{}
+	for _, a := range avoid {
+		if la, ok := f.Locate(a); ok {
+			block[la] = true
+		}
+	}
+	seen := map[*cfg.Block]bool{}
+	work := []*cfg.Block{f.G.Blocks[0]}
+	seen[f.G.Blocks[0]] = true
+	for len(work) > 0 {
+		b := work[len(work)-1]
+		work = work[:len(work)-1]
+		blocked := false
+		for i := 0; i < len(b.Nodes); i++ {
+			if b == lt.B && i == lt.I {
+				return true
+			}
+			if block[Loc{b, i}] {
+				blocked = true
+				break
+			}
+		}
+		if blocked {
+			continue
+		}
+		for _, s := range b.Succs {
+			if !seen[s] {
+				seen[s] = true
+				work = append(work, s)
+			}
+		}
+	}
+	return false
+}
